@@ -474,6 +474,12 @@ def run_for_property(prop, repo_root, seed=0, jobs=None, base=frozenset()):
                 out["stale"] += 1
             else:
                 out["failed"].append("%s: %s" % (name, msg))
+    # the canonicaliser itself: pairs that must be told apart / recognised as the same (sa/canon_unit.py)
+    from . import canon_unit
+    cu = canon_unit.run()
+    out["canonicaliser_unit_pairs"] = len(canon_unit.DIFFERENT) + len(canon_unit.SAME)
+    for msg in cu:
+        out["failed"].append("canonicaliser: %s" % msg)
     if out["stale"] * 3 > out["total"]:
         out["failed"].append("%d of %d variants are stale (anchors vanished)" % (out["stale"], out["total"]))
     out["breaking"] = sum(1 for x in todo if x[1][2] == B)
